@@ -37,6 +37,26 @@ def sh(cmd, cwd=None, env=None, timeout=3600):
     return p.returncode, p.stdout + p.stderr
 
 
+def base_violation_keys(base, check, tier):
+    """Violation keys of the UNPATCHED commit `base` (cached under seeded/_base/)."""
+    cache = f"/verif/seeded/_base/{base}_{check}_{tier}.json"
+    if os.path.exists(cache):
+        return json.load(open(cache))["keys"]
+    d = f"/tmp/seedbase_{base}_{check}_{os.getpid()}"
+    shutil.rmtree(d, ignore_errors=True)
+    os.makedirs(d)
+    try:
+        sh(f"git -C /repo archive {base} | tar -x -C {d}")
+        rc, out = sh(f"{PY} -m vf check {check} --tier {tier}", cwd="/verif", env={"VERIF_REPO": d})
+        sh(f"git -C /verif checkout -- evidence/{check}.json")
+    finally:
+        shutil.rmtree(d, ignore_errors=True)
+    keys = sorted(set(re.findall(r"^  key=(\S+)", out, re.M)))
+    os.makedirs(os.path.dirname(cache), exist_ok=True)
+    json.dump(dict(commit=base, check=check, tier=tier, exit=rc, keys=keys), open(cache, "w"), indent=1)
+    return keys
+
+
 def main():
     args = sys.argv[1:]
     prop, src, sid = args[:3]
@@ -48,23 +68,37 @@ def main():
             checks = args[i + 1].split(",")
         if a == "--tier":
             tier = args[i + 1]
+    base = None
+    for i, a in enumerate(args):
+        if a == "--base":
+            base = args[i + 1]
     dst = f"/verif/seeded/{sid}"
     os.makedirs(dst, exist_ok=True)
     for f in ("patch.diff", "demo.py", "notes.md"):
         if os.path.exists(os.path.join(src, f)) and os.path.abspath(src) != os.path.abspath(dst):
             shutil.copy(os.path.join(src, f), os.path.join(dst, f))
-    scratch = f"/tmp/seed_{sid}"
-    shutil.rmtree(scratch, ignore_errors=True)
-    sh(f"rsync -a --exclude .git --exclude _mut /repo/ {scratch}/")
-    os.makedirs(f"{scratch}/_mut/x", exist_ok=True)
-    shutil.copy(f"{dst}/demo.py", f"{scratch}/_mut/x/demo.py")
     old = {}
     if os.path.exists(f"{dst}/meta.json"):
         try:
             old = json.load(open(f"{dst}/meta.json"))
         except Exception:
             old = {}
+    base = base or old.get("base_commit")
+    scratch = f"/tmp/seed_{sid}"
+    shutil.rmtree(scratch, ignore_errors=True)
+    if base:
+        # the change targets code that a later fix: commit replaced: it is applied to the commit it
+        # was written against, and only violations that the unpatched base does NOT show count
+        os.makedirs(scratch)
+        sh(f"git -C /repo archive {base} | tar -x -C {scratch}")
+    else:
+        sh(f"rsync -a --exclude .git --exclude _mut /repo/ {scratch}/")
+    os.makedirs(f"{scratch}/_mut/x", exist_ok=True)
+    shutil.copy(f"{dst}/demo.py", f"{scratch}/_mut/x/demo.py")
     meta = dict(seed=sid, property=prop, at=time.strftime("%Y-%m-%dT%H:%M:%SZ", time.gmtime()), repo_head=sh("git -C /repo log --format=%h -1")[1].strip())
+    if base:
+        meta["base_commit"] = base
+        meta["base_note"] = f"applied to commit {base} (the code it changes was replaced by a later fix: commit); detected = a violation key that the unpatched commit {base} does not produce"
     try:
         rc, out = sh(f"{PY} _mut/x/demo.py", cwd=scratch)
         meta["demo_clean_exit"] = rc
@@ -92,7 +126,13 @@ def main():
             t0 = time.time()
             rc, out = sh(f"{PY} -m vf check {c} --tier {tier}", cwd="/verif", env={"VERIF_REPO": scratch})
             keys = sorted(set(re.findall(r"^  key=(\S+)", out, re.M)))
-            meta["checks"][c] = dict(tier=tier, exit=rc, detected=rc == 1, violation_keys=keys[:12], n_keys=len(keys), wall_s=round(time.time() - t0, 1), tail=out.strip().splitlines()[-1][:300] if out.strip() else "")
+            base_keys = set()
+            if base:
+                base_keys = set(base_violation_keys(base, c, tier))
+                keys = [k for k in keys if k not in base_keys]
+            meta["checks"][c] = dict(tier=tier, exit=rc, detected=rc == 1 and (not base or bool(keys)), violation_keys=keys[:12], n_keys=len(keys), wall_s=round(time.time() - t0, 1), tail=out.strip().splitlines()[-1][:300] if out.strip() else "")
+            if base:
+                meta["checks"][c]["keys_also_shown_by_unpatched_base"] = len(base_keys)
             sh(f"git -C /verif checkout -- evidence/{c}.json")
     finally:
         shutil.rmtree(scratch, ignore_errors=True)
